@@ -174,6 +174,25 @@ func main() {
 		os.Exit(3)
 	}()
 	ctx := &Ctx{prop: *prop, tier: *tier, rng: rand.New(rand.NewSource(*seed)), thor: *tier == "thorough"}
+	// Memory watchdog: real code that never stops usually also grows without bound; report it
+	// instead of taking the machine down.
+	go func() {
+		var ms runtime.MemStats
+		memLimit := uint64(12) << 30
+		for {
+			time.Sleep(250 * time.Millisecond)
+			runtime.ReadMemStats(&ms)
+			if ms.HeapAlloc > memLimit {
+				last := ""
+				if n := len(ctx.cases); n > 0 {
+					last = ctx.cases[n-1].Kind + ": " + trunc(ctx.cases[n-1].Note, 200)
+				}
+				emit(Report{Property: *prop, Tier: *tier, Seed: *seed, Kinds: map[string]int{},
+					Error: fmt.Sprintf("heap grew beyond %d GiB while running the real code (probable non-termination); last completed case: %s", memLimit>>30, last)})
+				os.Exit(3)
+			}
+		}
+	}()
 	if *replay != "" {
 		replayFile(ctx, *replay)
 	} else {
